@@ -1,0 +1,19 @@
+//go:build verif
+
+package packet
+
+import "github.com/valyala/bytebufferpool"
+
+// poisonOnRelease (verification hook, build tag verif) overwrites the whole
+// backing array of a pooled buffer before it goes back to the pool, so that a
+// result that still aliases the buffer is corrupted at once instead of only
+// when the pool hands the array to the next writer.
+func poisonOnRelease(b *bytebufferpool.ByteBuffer) {
+	if b == nil {
+		return
+	}
+	full := b.B[:cap(b.B)]
+	for i := range full {
+		full[i] = 0xDD
+	}
+}
